@@ -451,6 +451,27 @@ def body(args, cfg, pid, tier, seed, driver, work, cmds, t0):
                 findings.append({"signature": f"{pid}/corr/{kind}", "kind": "diff", "clause": None, "case": c,
                                  "detail": f"op {d} `{c['ops'][d] if d < len(c['ops']) else ''}`: impl `{a[d] if d < len(a) else '<missing>'}` model `{b[d] if d < len(b) else '<missing>'}`", "op": d})
 
+    # ---- a model/code divergence must be reproducible: the real code runs goroutines (background access-time updates,
+    # notifiers) whose order inside one op the harness cannot always pin; a divergence seen once that does not show up
+    # again when the same case is run alone (3 attempts) is scheduling noise, recorded in the evidence but not reported.
+    # Only done when few cases diverge (a real change makes many cases diverge, and stays reported).
+    unstable = []
+    diff_f = [f for f in findings if f["kind"] == "diff"]
+    if 0 < len(diff_f) <= 5 and not harness_broken and lean_ok:
+        for f in diff_f:
+            again = 0
+            for attempt in range(3):
+                rio, rmo, rf, e = exec_both(pid, driver, [f["case"]], work, "again", 600)
+                if e or not rio or not rmo or first_diff(rio[0], rmo[0]) is not None:
+                    again += 1
+                    break
+            if again == 0:
+                unstable.append({"case": f["case"]["id"], "signature": f["signature"], "detail": f["detail"][:400]})
+                findings.remove(f)
+                diffs -= 1
+        if unstable:
+            log(f"{len(unstable)} divergence(s) did not reproduce in 3 re-runs of the same case (scheduling-dependent): not reported")
+
     # ---- search for failing inputs when only a proof/correspondence broke (DESIGN §2.4)
     search_note = None
     oracle_sigs = {f["signature"] for f in findings if f["kind"] == "oracle"}
@@ -582,6 +603,7 @@ def body(args, cfg, pid, tier, seed, driver, work, cmds, t0):
             "op_histogram": dict(op_hist.most_common(30)),
             "impl_output_histogram": dict(out_hist.most_common(20)),
             "correspondence_disagreements": diffs,
+            "unstable_divergences_not_reproduced": unstable,
             "oracle_failures": len(fails),
             "known_findings_hit": known_lines,
             "explanation": cfg.get("explanation", ""),
